@@ -32,6 +32,7 @@ package common
 //@   ensures [C11,C05] wf: wfPS(res) && freshPS(res)
 //@   ensures [C11,C05] nums: forall n int :: {iset(res.Ports)[n]} iset(res.Ports)[n] == (all && 1 <= n && n <= 65535)
 //@   ensures [C11] names: noNames(res) && noExcl(res)
+//@   ensures [C11] witness: all ==> iset(res.Ports)[1]
 
 //@ func (*PortSet).Equal
 //@   requires wfPS(p) && wfPS(other)
@@ -64,35 +65,35 @@ package common
 //@   modifies p.NamedPorts[*], p.ExcludedNamedPorts[*], iset { r | r == p.Ports }
 //@   ensures [C11] wf: wfPS(p)
 //@   ensures [C11] named: port.Type == intstr.String ==> iset(p.Ports) == old(iset(p.Ports))
-//@         && (forall s string :: {s in p.NamedPorts} (s in p.NamedPorts) == (old(s in p.NamedPorts) || s == port.StrVal))
-//@         && (forall s string :: {s in p.ExcludedNamedPorts} (s in p.ExcludedNamedPorts) == (old(s in p.ExcludedNamedPorts) && s != port.StrVal))
+//@         && (forall s string :: {s in p.NamedPorts} {old(s in p.NamedPorts)} (s in p.NamedPorts) == (old(s in p.NamedPorts) || s == port.StrVal))
+//@         && (forall s string :: {s in p.ExcludedNamedPorts} {old(s in p.ExcludedNamedPorts)} (s in p.ExcludedNamedPorts) == (old(s in p.ExcludedNamedPorts) && s != port.StrVal))
 //@   ensures [C11] numeric: port.Type != intstr.String ==> dom(p.NamedPorts) == old(dom(p.NamedPorts))
 //@         && dom(p.ExcludedNamedPorts) == old(dom(p.ExcludedNamedPorts))
-//@         && (forall n int :: {iset(p.Ports)[n]} iset(p.Ports)[n] == (old(iset(p.Ports)[n]) || n == port.IntVal))
+//@         && (forall n int :: {iset(p.Ports)[n]} {old(iset(p.Ports)[n])} iset(p.Ports)[n] == (old(iset(p.Ports)[n]) || n == port.IntVal))
 
 //@ func (*PortSet).RemovePort
 //@   requires wfPS(p)
 //@   modifies p.NamedPorts[*], p.ExcludedNamedPorts[*], iset { r | r == p.Ports }
 //@   ensures [C11] wf: wfPS(p)
 //@   ensures [C11] named: port.Type == intstr.String ==> iset(p.Ports) == old(iset(p.Ports))
-//@         && (forall s string :: {s in p.NamedPorts} (s in p.NamedPorts) == (old(s in p.NamedPorts) && s != port.StrVal))
-//@         && (forall s string :: {s in p.ExcludedNamedPorts} (s in p.ExcludedNamedPorts) == (old(s in p.ExcludedNamedPorts) || s == port.StrVal))
+//@         && (forall s string :: {s in p.NamedPorts} {old(s in p.NamedPorts)} (s in p.NamedPorts) == (old(s in p.NamedPorts) && s != port.StrVal))
+//@         && (forall s string :: {s in p.ExcludedNamedPorts} {old(s in p.ExcludedNamedPorts)} (s in p.ExcludedNamedPorts) == (old(s in p.ExcludedNamedPorts) || s == port.StrVal))
 //@   ensures [C11] numeric: port.Type != intstr.String ==> dom(p.NamedPorts) == old(dom(p.NamedPorts))
 //@         && dom(p.ExcludedNamedPorts) == old(dom(p.ExcludedNamedPorts))
-//@         && (forall n int :: {iset(p.Ports)[n]} iset(p.Ports)[n] == (old(iset(p.Ports)[n]) && n != port.IntVal))
+//@         && (forall n int :: {iset(p.Ports)[n]} {old(iset(p.Ports)[n])} iset(p.Ports)[n] == (old(iset(p.Ports)[n]) && n != port.IntVal))
 
 //@ func (*PortSet).AddPortRange
 //@   requires wfPS(p)
 //@   modifies iset { r | r == p.Ports }
 //@   ensures [C11] wf: wfPS(p)
-//@   ensures [C11] nums: forall n int :: {iset(p.Ports)[n]} iset(p.Ports)[n] == (old(iset(p.Ports)[n]) || (minPort <= n && n <= maxPort))
+//@   ensures [C11] nums: forall n int :: {iset(p.Ports)[n]} {old(iset(p.Ports)[n])} iset(p.Ports)[n] == (old(iset(p.Ports)[n]) || (minPort <= n && n <= maxPort))
 
 //@ func (*PortSet).Union
 //@   requires wfPS(p) && wfPS(other) && sepPS(p, other)
 //@   modifies p.Ports, p.NamedPorts[*], p.ExcludedNamedPorts[*]
 //@   ensures [C11] wf: wfPS(p) && fresh(p.Ports) && p.NamedPorts == old(p.NamedPorts) && p.ExcludedNamedPorts == old(p.ExcludedNamedPorts)
-//@   ensures [C11] nums: forall n int :: {iset(p.Ports)[n]} iset(p.Ports)[n] == (old(iset(p.Ports)[n]) || iset(other.Ports)[n])
-//@   ensures [C11] names: forall s string :: {s in p.NamedPorts} (s in p.NamedPorts) == (old(s in p.NamedPorts) || s in other.NamedPorts)
+//@   ensures [C11] nums: forall n int :: {iset(p.Ports)[n]} {old(iset(p.Ports)[n])} iset(p.Ports)[n] == (old(iset(p.Ports)[n]) || iset(other.Ports)[n])
+//@   ensures [C11] names: forall s string :: {s in p.NamedPorts} {old(s in p.NamedPorts)} (s in p.NamedPorts) == (old(s in p.NamedPorts) || s in other.NamedPorts)
 //@   ensures [C11] excl: forall s string :: {s in p.ExcludedNamedPorts} (s in p.ExcludedNamedPorts) ==
 //@         ((old(s in p.ExcludedNamedPorts) && !(s in other.NamedPorts)) || (s in other.ExcludedNamedPorts && !(s in p.NamedPorts)))
 //@   loop 1:
@@ -120,7 +121,7 @@ package common
 //@   requires wfPS(p) && wfPS(other)
 //@   modifies p.Ports
 //@   ensures [C11] wf: wfPS(p) && fresh(p.Ports)
-//@   ensures [C11] nums: forall n int :: {iset(p.Ports)[n]} iset(p.Ports)[n] == (old(iset(p.Ports)[n]) && iset(other.Ports)[n])
+//@   ensures [C11] nums: forall n int :: {iset(p.Ports)[n]} {old(iset(p.Ports)[n])} iset(p.Ports)[n] == (old(iset(p.Ports)[n]) && iset(other.Ports)[n])
 
 //@ func (*PortSet).IsAll
 //@   requires wfPS(p)
@@ -134,20 +135,280 @@ package common
 //@   requires wfPS(p) && wfPS(other) && sepPS(p, other)
 //@   modifies p.Ports, p.NamedPorts[*], p.ExcludedNamedPorts[*]
 //@   ensures [C11] wf: wfPS(p) && fresh(p.Ports) && p.NamedPorts == old(p.NamedPorts) && p.ExcludedNamedPorts == old(p.ExcludedNamedPorts)
-//@   ensures [C11] nums: forall n int :: {iset(p.Ports)[n]} iset(p.Ports)[n] == (old(iset(p.Ports)[n]) && !iset(other.Ports)[n])
-//@   ensures [C11] names: forall s string :: {s in p.NamedPorts} (s in p.NamedPorts) == (old(s in p.NamedPorts) && !(s in other.NamedPorts))
-//@   ensures [C11] excl: forall s string :: {s in p.ExcludedNamedPorts} (s in p.ExcludedNamedPorts) == (old(s in p.ExcludedNamedPorts) || s in other.NamedPorts)
+//@   ensures [C11] nums: forall n int :: {iset(p.Ports)[n]} {old(iset(p.Ports)[n])} iset(p.Ports)[n] == (old(iset(p.Ports)[n]) && !iset(other.Ports)[n])
+//@   ensures [C11] names: forall s string :: {s in p.NamedPorts} {old(s in p.NamedPorts)} (s in p.NamedPorts) == (old(s in p.NamedPorts) && !(s in other.NamedPorts))
+//@   ensures [C11] excl: forall s string :: {s in p.ExcludedNamedPorts} {old(s in p.ExcludedNamedPorts)} (s in p.ExcludedNamedPorts) == (old(s in p.ExcludedNamedPorts) || s in other.NamedPorts)
 
 //@ func (*PortSet).subtractNamedPorts
 //@   requires wfPS(p) && otherNamedPorts != nil && allocated(otherNamedPorts)
 //@   requires otherNamedPorts != p.NamedPorts && otherNamedPorts != p.ExcludedNamedPorts
 //@   modifies p.NamedPorts[*], p.ExcludedNamedPorts[*]
 //@   ensures [C11] wf: wfPS(p)
-//@   ensures [C11] names: forall s string :: {s in p.NamedPorts} (s in p.NamedPorts) == (old(s in p.NamedPorts) && !(s in otherNamedPorts))
-//@   ensures [C11] excl: forall s string :: {s in p.ExcludedNamedPorts} (s in p.ExcludedNamedPorts) == (old(s in p.ExcludedNamedPorts) || s in otherNamedPorts)
+//@   ensures [C11] names: forall s string :: {s in p.NamedPorts} {old(s in p.NamedPorts)} (s in p.NamedPorts) == (old(s in p.NamedPorts) && !(s in otherNamedPorts))
+//@   ensures [C11] excl: forall s string :: {s in p.ExcludedNamedPorts} {old(s in p.ExcludedNamedPorts)} (s in p.ExcludedNamedPorts) == (old(s in p.ExcludedNamedPorts) || s in otherNamedPorts)
 //@   loop 1:
 //@     invariant sub: forall s string :: {seen(s)} seen(s) ==> s in otherNamedPorts
 //@     invariant names: forall s string :: {s in p.NamedPorts} (s in p.NamedPorts) == (old(s in p.NamedPorts) && !seen(s))
 //@     invariant vals: forall s string :: {s in p.NamedPorts} s in p.NamedPorts ==> p.NamedPorts[s]
 //@     invariant excl: forall s string :: {s in p.ExcludedNamedPorts} (s in p.ExcludedNamedPorts) == (old(s in p.ExcludedNamedPorts) || seen(s))
 //@     invariant exclvals: forall s string :: {s in p.ExcludedNamedPorts} s in p.ExcludedNamedPorts ==> p.ExcludedNamedPorts[s]
+
+// ---------------------------------------------------------------------------------------------
+// ConnectionSet
+// ---------------------------------------------------------------------------------------------
+
+//@ pred isProto(q v1.Protocol) = q == "TCP" || q == "UDP" || q == "SCTP"
+//@ pred isPP(q v1.Protocol, n int) = isProto(q) && 1 <= n && n <= 65535
+
+//@ pred ownsPS(c *ConnectionSet, r *PortSet) = exists q v1.Protocol :: q in c.AllowedProtocols && r == c.AllowedProtocols[q]
+//@ pred ownsMap(c *ConnectionSet, m map[string]bool) = exists q v1.Protocol :: q in c.AllowedProtocols
+//@     && (m == c.AllowedProtocols[q].NamedPorts || m == c.AllowedProtocols[q].ExcludedNamedPorts)
+//@ pred ownsIS(c *ConnectionSet, r *interval.CanonicalSet) = exists q v1.Protocol :: q in c.AllowedProtocols && r == c.AllowedProtocols[q].Ports
+
+// representation invariant: well-formed port sets, no sharing between protocols, AllowAll has an empty map,
+// protocol keys are TCP/UDP/SCTP and numeric ports lie in 1..65535 (input validity V of DESIGN section 5)
+//@ pred wfCS(c *ConnectionSet) = c != nil && allocated(c) && c.AllowedProtocols != nil && allocated(c.AllowedProtocols)
+//@     && (forall q v1.Protocol :: {q in c.AllowedProtocols} q in c.AllowedProtocols ==>
+//@             wfPS(c.AllowedProtocols[q]) && isProto(q) && inRange(c.AllowedProtocols[q]))
+//@     && (forall q v1.Protocol, r v1.Protocol :: {q in c.AllowedProtocols, r in c.AllowedProtocols}
+//@             q in c.AllowedProtocols && r in c.AllowedProtocols && q != r ==> sepPS(c.AllowedProtocols[q], c.AllowedProtocols[r]))
+//@     && (c.AllowAll ==> (forall q v1.Protocol :: {q in c.AllowedProtocols} !(q in c.AllowedProtocols)))
+
+//@ pred sepCS(a *ConnectionSet, b *ConnectionSet) = a != b && a.AllowedProtocols != b.AllowedProtocols
+//@     && (forall q v1.Protocol, r v1.Protocol :: {q in a.AllowedProtocols, r in b.AllowedProtocols}
+//@             q in a.AllowedProtocols && r in b.AllowedProtocols ==> sepPS(a.AllowedProtocols[q], b.AllowedProtocols[r]))
+
+// denotation: the set of (protocol, port) points
+//@ fun ptsP(c *ConnectionSet, q v1.Protocol, n int) bool = q in c.AllowedProtocols && iset(c.AllowedProtocols[q].Ports)[n]
+//@ fun pts(c *ConnectionSet, q v1.Protocol, n int) bool = isPP(q, n) && (c.AllowAll || ptsP(c, q, n))
+// all three protocols hold the full numeric range (whether or not the AllowAll form is used)
+//@ pred numFull(c *ConnectionSet) = "TCP" in c.AllowedProtocols && fullRange(c.AllowedProtocols["TCP"])
+//@     && "UDP" in c.AllowedProtocols && fullRange(c.AllowedProtocols["UDP"])
+//@     && "SCTP" in c.AllowedProtocols && fullRange(c.AllowedProtocols["SCTP"])
+//@ fun npts(c *ConnectionSet, q v1.Protocol, s string) bool = q in c.AllowedProtocols && s in c.AllowedProtocols[q].NamedPorts
+
+//@ func MakeConnectionSet
+//@   ensures [C11,C05] wf: wfCS(res) && fresh(res) && fresh(res.AllowedProtocols)
+//@   ensures [C11,C05] val: res.AllowAll == all && (forall q v1.Protocol :: {q in res.AllowedProtocols} !(q in res.AllowedProtocols))
+
+//@ func (*ConnectionSet).IsEmpty
+//@   requires wfCS(conn)
+//@   ensures [C11] empty: res == (!conn.AllowAll && (forall q v1.Protocol :: {q in conn.AllowedProtocols} !(q in conn.AllowedProtocols)))
+
+//@ func (*ConnectionSet).IsAllConnections
+//@   requires wfCS(conn)
+//@   ensures [C11,C05] all: res == conn.AllowAll
+
+//@ func (*ConnectionSet).AddConnection
+//@   requires wfCS(conn) && !conn.AllowAll && wfPS(ports) && isProto(protocol) && inRange(ports)
+//@   requires sep: forall q v1.Protocol :: {q in conn.AllowedProtocols} q in conn.AllowedProtocols ==> sepPS(conn.AllowedProtocols[q], ports)
+//@   modifies conn.AllowedProtocols[*]
+//@   modifies PortSet.Ports { r | protocol in conn.AllowedProtocols && r == conn.AllowedProtocols[protocol] }
+//@   modifies map[string]bool { m | protocol in conn.AllowedProtocols
+//@        && (m == conn.AllowedProtocols[protocol].NamedPorts || m == conn.AllowedProtocols[protocol].ExcludedNamedPorts) }
+//@   ensures [C11] wf: wfCS(conn) && !conn.AllowAll
+//@   ensures [C11] sep: forall q v1.Protocol :: {q in conn.AllowedProtocols} q in conn.AllowedProtocols ==> sepPS(conn.AllowedProtocols[q], ports)
+//@   ensures [C11] pts: forall q v1.Protocol, n int :: {iset(conn.AllowedProtocols[q].Ports)[n]} ptsP(conn, q, n) == (old(ptsP(conn, q, n)) || (q == protocol && iset(ports.Ports)[n]))
+//@   ensures [C11] npts: forall q v1.Protocol, s string :: {s in conn.AllowedProtocols[q].NamedPorts} npts(conn, q, s) == (old(npts(conn, q, s)) || (q == protocol && s in ports.NamedPorts))
+//@   ensures [C11] keep: forall q v1.Protocol :: {q in conn.AllowedProtocols} old(q in conn.AllowedProtocols) ==>
+//@         (q in conn.AllowedProtocols && conn.AllowedProtocols[q] == old(conn.AllowedProtocols[q]))
+//@   ensures [C11] newfresh: forall q v1.Protocol :: {q in conn.AllowedProtocols} (q in conn.AllowedProtocols && !old(q in conn.AllowedProtocols)) ==>
+//@         (q == protocol && freshPS(conn.AllowedProtocols[q]))
+//@   ensures [C11] added: (noNums(ports) && noNames(ports)) || protocol in conn.AllowedProtocols
+//@   ensures [C11] newexcl: (!old(protocol in conn.AllowedProtocols) && protocol in conn.AllowedProtocols) ==>
+//@         dom(conn.AllowedProtocols[protocol].ExcludedNamedPorts) == dom(ports.ExcludedNamedPorts)
+
+//@ func GetAllTCPConnections
+//@   ensures [C11] wf: wfCS(res) && fresh(res) && fresh(res.AllowedProtocols) && !res.AllowAll
+//@   ensures [C11] owned: forall q v1.Protocol :: {q in res.AllowedProtocols} q in res.AllowedProtocols ==> freshPS(res.AllowedProtocols[q])
+//@   ensures [C11,C10] pts: forall q v1.Protocol, n int :: {iset(res.AllowedProtocols[q].Ports)[n]} ptsP(res, q, n) == (q == "TCP" && 1 <= n && n <= 65535)
+//@   ensures [C11] npts: forall q v1.Protocol, s string :: {s in res.AllowedProtocols[q].NamedPorts} !npts(res, q, s)
+
+//@ func (*ConnectionSet).Copy
+//@   requires wfCS(conn)
+//@   ensures [C11] wf: wfCS(res) && fresh(res) && fresh(res.AllowedProtocols) && res.AllowAll == conn.AllowAll
+//@   ensures [C11] owned: forall q v1.Protocol :: {q in res.AllowedProtocols} q in res.AllowedProtocols ==> freshPS(res.AllowedProtocols[q])
+//@   ensures [C11] dom: dom(res.AllowedProtocols) == dom(conn.AllowedProtocols)
+//@   ensures [C11] same: forall q v1.Protocol :: {q in res.AllowedProtocols} q in res.AllowedProtocols ==>
+//@         (iset(res.AllowedProtocols[q].Ports) == iset(conn.AllowedProtocols[q].Ports)
+//@          && dom(res.AllowedProtocols[q].NamedPorts) == dom(conn.AllowedProtocols[q].NamedPorts)
+//@          && dom(res.AllowedProtocols[q].ExcludedNamedPorts) == dom(conn.AllowedProtocols[q].ExcludedNamedPorts))
+//@   loop 1:
+//@     invariant sub: forall q v1.Protocol :: {seen(q)} seen(q) ==> q in conn.AllowedProtocols
+//@     invariant dom: forall q v1.Protocol :: {q in res.AllowedProtocols} (q in res.AllowedProtocols) == seen(q)
+//@     invariant elems: forall q v1.Protocol :: {q in res.AllowedProtocols} q in res.AllowedProtocols ==>
+//@         (wfPS(res.AllowedProtocols[q]) && freshPS(res.AllowedProtocols[q])
+//@          && iset(res.AllowedProtocols[q].Ports) == iset(conn.AllowedProtocols[q].Ports)
+//@          && dom(res.AllowedProtocols[q].NamedPorts) == dom(conn.AllowedProtocols[q].NamedPorts)
+//@          && dom(res.AllowedProtocols[q].ExcludedNamedPorts) == dom(conn.AllowedProtocols[q].ExcludedNamedPorts))
+//@     invariant sep: forall q v1.Protocol, r v1.Protocol :: {q in res.AllowedProtocols, r in res.AllowedProtocols}
+//@         q in res.AllowedProtocols && r in res.AllowedProtocols && q != r ==> sepPS(res.AllowedProtocols[q], res.AllowedProtocols[r])
+
+//@ func (*ConnectionSet).Contains
+//@   requires wfCS(conn)
+//@   ensures [C11,C03] mem: atoiOk(port) ==> (res == (conn.AllowAll || (exists q v1.Protocol :: q in conn.AllowedProtocols && foldEq(protocol, q)
+//@         && iset(conn.AllowedProtocols[q].Ports)[atoiVal(port)])))
+//@   ensures [C11,C03] bad: !atoiOk(port) ==> !res
+//@   loop 1:
+//@     invariant sub: forall q v1.Protocol :: {seen(q)} seen(q) ==> (q in conn.AllowedProtocols && !foldEq(protocol, q))
+
+//@ func (*ConnectionSet).ContainedIn
+//@   requires wfCS(conn) && wfCS(other)
+//@   ensures [C11,C07] sound: res ==> (forall q v1.Protocol, n int :: {iset(conn.AllowedProtocols[q].Ports)[n]} pts(conn, q, n) ==> pts(other, q, n))
+//@   ensures [C11] complete: ((forall q v1.Protocol, n int :: {iset(conn.AllowedProtocols[q].Ports)[n]} pts(conn, q, n) ==> pts(other, q, n))
+//@         && (forall q v1.Protocol, s string :: {s in conn.AllowedProtocols[q].NamedPorts} npts(conn, q, s) ==> npts(other, q, s))
+//@         && (forall q v1.Protocol :: {q in conn.AllowedProtocols} q in conn.AllowedProtocols ==> (q in other.AllowedProtocols || other.AllowAll))
+//@         && (conn.AllowAll ==> other.AllowAll)) ==> res
+//@   ensures [C11,C07] named: res ==> (forall q v1.Protocol, s string :: {s in conn.AllowedProtocols[q].NamedPorts} npts(conn, q, s) ==>
+//@         (other.AllowAll || npts(other, q, s) || (q in other.AllowedProtocols && fullRange(other.AllowedProtocols[q]))))
+//@   loop 1:
+//@     invariant sub: forall q v1.Protocol :: {seen(q)} seen(q) ==> (q in conn.AllowedProtocols && q in other.AllowedProtocols
+//@         && (forall n int :: {iset(conn.AllowedProtocols[q].Ports)[n]} iset(conn.AllowedProtocols[q].Ports)[n] ==> iset(other.AllowedProtocols[q].Ports)[n])
+//@         && (forall s string :: {s in conn.AllowedProtocols[q].NamedPorts} s in conn.AllowedProtocols[q].NamedPorts ==>
+//@               (s in other.AllowedProtocols[q].NamedPorts || fullRange(other.AllowedProtocols[q]))))
+
+//@ func (*ConnectionSet).Equal
+//@   requires wfCS(conn) && wfCS(other)
+//@   ensures [C11] sound: res ==> (conn.AllowAll == other.AllowAll && dom(conn.AllowedProtocols) == dom(other.AllowedProtocols)
+//@         && (forall q v1.Protocol :: {q in conn.AllowedProtocols} q in conn.AllowedProtocols ==>
+//@               (iset(conn.AllowedProtocols[q].Ports) == iset(other.AllowedProtocols[q].Ports)
+//@                && dom(conn.AllowedProtocols[q].NamedPorts) == dom(other.AllowedProtocols[q].NamedPorts)
+//@                && dom(conn.AllowedProtocols[q].ExcludedNamedPorts) == dom(other.AllowedProtocols[q].ExcludedNamedPorts))))
+//@   ensures [C11] complete: (conn.AllowAll == other.AllowAll && dom(conn.AllowedProtocols) == dom(other.AllowedProtocols)
+//@         && (forall q v1.Protocol :: {q in conn.AllowedProtocols} q in conn.AllowedProtocols ==>
+//@               (iset(conn.AllowedProtocols[q].Ports) == iset(other.AllowedProtocols[q].Ports)
+//@                && dom(conn.AllowedProtocols[q].NamedPorts) == dom(other.AllowedProtocols[q].NamedPorts)
+//@                && dom(conn.AllowedProtocols[q].ExcludedNamedPorts) == dom(other.AllowedProtocols[q].ExcludedNamedPorts)))) ==> res
+//@   loop 1:
+//@     invariant sub: forall q v1.Protocol :: {seen(q)} seen(q) ==> (q in conn.AllowedProtocols && q in other.AllowedProtocols
+//@               && iset(conn.AllowedProtocols[q].Ports) == iset(other.AllowedProtocols[q].Ports)
+//@               && dom(conn.AllowedProtocols[q].NamedPorts) == dom(other.AllowedProtocols[q].NamedPorts)
+//@               && dom(conn.AllowedProtocols[q].ExcludedNamedPorts) == dom(other.AllowedProtocols[q].ExcludedNamedPorts))
+
+// the explicit (non-AllowAll) spelling of the full set: what checkIfAllConnections collapses
+//@ pred isAllPS(p *PortSet) = (forall n int :: {iset(p.Ports)[n]} iset(p.Ports)[n] == (1 <= n && n <= 65535)) && noNames(p) && noExcl(p)
+//@ pred hasAll(c *ConnectionSet, q v1.Protocol) = q in c.AllowedProtocols && isAllPS(c.AllowedProtocols[q])
+//@ pred allExplicit(c *ConnectionSet) = hasAll(c, "TCP") && hasAll(c, "UDP") && hasAll(c, "SCTP")
+//@ pred canonCS(c *ConnectionSet) = c.AllowAll || !allExplicit(c)
+
+// the purely numeric fragment (no named ports anywhere, no empty port set): every set outside exposure analysis
+//@ pred pureNum(c *ConnectionSet) = forall q v1.Protocol :: {q in c.AllowedProtocols} q in c.AllowedProtocols ==>
+//@     (noNames(c.AllowedProtocols[q]) && noExcl(c.AllowedProtocols[q]) && !noNums(c.AllowedProtocols[q]))
+
+//@ func (*ConnectionSet).isAllConnectionsWithoutAllowAll
+//@   requires wfCS(conn)
+//@   ensures [C11,C05] def: res == (!conn.AllowAll && allExplicit(conn))
+//@   loop 1:
+//@     invariant idx: 0 - 1 <= rangeindex && rangeindex < 3 && !conn.AllowAll
+//@     invariant done: forall i int :: {allProtocols[i]} 0 <= i && i <= rangeindex ==> hasAll(conn, allProtocols[i])
+
+//@ func (*ConnectionSet).checkIfAllConnections
+//@   requires wfCS(conn)
+//@   modifies conn.AllowAll, conn.AllowedProtocols
+//@   ensures [C11,C05] wf: wfCS(conn)
+//@   ensures [C11,C05] canon: canonCS(conn)
+//@   ensures [C11,C05] collapse: (old(!conn.AllowAll && allExplicit(conn))) ==> (conn.AllowAll && fresh(conn.AllowedProtocols))
+//@   ensures [C11,C05] keep: !(old(!conn.AllowAll && allExplicit(conn))) ==> (conn.AllowAll == old(conn.AllowAll) && conn.AllowedProtocols == old(conn.AllowedProtocols))
+
+//@ func (*ConnectionSet).addAllConns
+//@   requires wfCS(conn) && !conn.AllowAll && (forall q v1.Protocol :: {q in conn.AllowedProtocols} !(q in conn.AllowedProtocols))
+//@   modifies conn.AllowedProtocols[*]
+//@   ensures [C11] wf: wfCS(conn) && !conn.AllowAll
+//@   ensures [C11] dom: forall q v1.Protocol :: {q in conn.AllowedProtocols} (q in conn.AllowedProtocols) == isProto(q)
+//@   ensures [C11] full: forall q v1.Protocol :: {q in conn.AllowedProtocols} q in conn.AllowedProtocols ==>
+//@         (freshPS(conn.AllowedProtocols[q]) && isAllPS(conn.AllowedProtocols[q]) && iset(conn.AllowedProtocols[q].Ports)[1])
+//@   loop 1:
+//@     invariant idx: 0 - 1 <= rangeindex && rangeindex < 3
+//@     invariant wf: wfCS(conn) && !conn.AllowAll
+//@     invariant dom: forall q v1.Protocol :: {q in conn.AllowedProtocols} (q in conn.AllowedProtocols) ==
+//@         ((q == "TCP" && rangeindex >= 0) || (q == "UDP" && rangeindex >= 1) || (q == "SCTP" && rangeindex >= 2))
+//@     invariant full: forall q v1.Protocol :: {q in conn.AllowedProtocols} q in conn.AllowedProtocols ==>
+//@         (freshPS(conn.AllowedProtocols[q]) && isAllPS(conn.AllowedProtocols[q]) && iset(conn.AllowedProtocols[q].Ports)[1])
+
+//@ func (*ConnectionSet).Union
+//@   requires wfCS(conn) && wfCS(other) && sepCS(conn, other)
+//@   modifies conn.AllowAll, conn.AllowedProtocols, conn.AllowedProtocols[*]
+//@   modifies PortSet.Ports { r | ownsPS(conn, r) }
+//@   modifies map[string]bool { m | ownsMap(conn, m) }
+//@   ensures [C11,C05,C02,C01] wf: wfCS(conn) && sepCS(conn, other)
+//@   ensures [C11,C02,C01,C14] pts: forall q v1.Protocol, n int :: {iset(conn.AllowedProtocols[q].Ports)[n]} {old(iset(conn.AllowedProtocols[q].Ports)[n])} {iset(other.AllowedProtocols[q].Ports)[n]}
+//@         pts(conn, q, n) == (old(pts(conn, q, n)) || pts(other, q, n))
+//@   ensures [C11] npts: !conn.AllowAll ==> (forall q v1.Protocol, s string :: {s in conn.AllowedProtocols[q].NamedPorts}
+//@         npts(conn, q, s) == (old(npts(conn, q, s)) || npts(other, q, s)))
+//@   ensures [C11,C05] canon: old(canonCS(conn)) ==> canonCS(conn)
+//@   loop 1:
+//@     invariant wf: wfCS(conn) && sepCS(conn, other) && !conn.AllowAll
+//@     invariant sub: forall q v1.Protocol :: {seen(q)} seen(q) ==> q in conn.AllowedProtocols
+//@     invariant done: forall q v1.Protocol, n int :: {iset(conn.AllowedProtocols[q].Ports)[n]} (q in conn.AllowedProtocols && seen(q)) ==>
+//@         iset(conn.AllowedProtocols[q].Ports)[n] == (old(iset(conn.AllowedProtocols[q].Ports)[n]) || ptsP(other, q, n))
+//@     invariant todo: forall q v1.Protocol :: {q in conn.AllowedProtocols} (q in conn.AllowedProtocols && !seen(q)) ==>
+//@         (iset(conn.AllowedProtocols[q].Ports) == old(iset(conn.AllowedProtocols[q].Ports))
+//@          && dom(conn.AllowedProtocols[q].NamedPorts) == old(dom(conn.AllowedProtocols[q].NamedPorts)))
+//@     invariant ndone: forall q v1.Protocol, s string :: {s in conn.AllowedProtocols[q].NamedPorts} (q in conn.AllowedProtocols && seen(q)) ==>
+//@         (s in conn.AllowedProtocols[q].NamedPorts) == (old(s in conn.AllowedProtocols[q].NamedPorts) || npts(other, q, s))
+//@   loop 2:
+//@     invariant wf: wfCS(conn) && sepCS(conn, other) && !conn.AllowAll && conn.AllowedProtocols == old(conn.AllowedProtocols)
+//@     invariant sub: forall q v1.Protocol :: {seen(q)} seen(q) ==> q in other.AllowedProtocols
+//@     invariant keep: forall q v1.Protocol :: {q in conn.AllowedProtocols} old(q in conn.AllowedProtocols) ==>
+//@         (q in conn.AllowedProtocols && conn.AllowedProtocols[q] == old(conn.AllowedProtocols[q]))
+//@     invariant olds: forall q v1.Protocol, n int :: {iset(conn.AllowedProtocols[q].Ports)[n]} old(q in conn.AllowedProtocols) ==>
+//@         iset(conn.AllowedProtocols[q].Ports)[n] == (old(iset(conn.AllowedProtocols[q].Ports)[n]) || ptsP(other, q, n))
+//@     invariant nolds: forall q v1.Protocol, s string :: {s in conn.AllowedProtocols[q].NamedPorts} old(q in conn.AllowedProtocols) ==>
+//@         (s in conn.AllowedProtocols[q].NamedPorts) == (old(s in conn.AllowedProtocols[q].NamedPorts) || npts(other, q, s))
+//@     invariant news: forall q v1.Protocol :: {q in conn.AllowedProtocols} !old(q in conn.AllowedProtocols) ==>
+//@         ((q in conn.AllowedProtocols) == seen(q))
+//@     invariant newv: forall q v1.Protocol :: {q in conn.AllowedProtocols} (q in conn.AllowedProtocols && !old(q in conn.AllowedProtocols)) ==>
+//@         (freshPS(conn.AllowedProtocols[q]) && iset(conn.AllowedProtocols[q].Ports) == iset(other.AllowedProtocols[q].Ports)
+//@          && dom(conn.AllowedProtocols[q].NamedPorts) == dom(other.AllowedProtocols[q].NamedPorts))
+
+//@ func (*ConnectionSet).Intersection
+//@   requires wfCS(conn) && wfCS(other) && sepCS(conn, other)
+//@   modifies conn.AllowAll, conn.AllowedProtocols[*]
+//@   modifies PortSet.Ports { r | ownsPS(conn, r) }
+//@   ensures [C11,C05,C01,C02] wf: wfCS(conn) && sepCS(conn, other) && conn.AllowedProtocols == old(conn.AllowedProtocols)
+//@   ensures [C11,C01,C02] pts: forall q v1.Protocol, n int :: {iset(conn.AllowedProtocols[q].Ports)[n]} {old(iset(conn.AllowedProtocols[q].Ports)[n])} {iset(other.AllowedProtocols[q].Ports)[n]}
+//@         pts(conn, q, n) == (old(pts(conn, q, n)) && pts(other, q, n))
+//@   ensures [C11,C05] canon: (old(canonCS(conn)) && canonCS(other)) ==> canonCS(conn)
+//@   loop 1:
+//@     invariant wf: wfCS(conn) && sepCS(conn, other) && !conn.AllowAll && conn.AllowedProtocols == old(conn.AllowedProtocols)
+//@     invariant sub: forall q v1.Protocol :: {seen(q)} seen(q) ==> q in other.AllowedProtocols
+//@     invariant dom: forall q v1.Protocol :: {q in conn.AllowedProtocols} (q in conn.AllowedProtocols) == seen(q)
+//@     invariant elems: forall q v1.Protocol :: {q in conn.AllowedProtocols} q in conn.AllowedProtocols ==>
+//@         (freshPS(conn.AllowedProtocols[q]) && iset(conn.AllowedProtocols[q].Ports) == iset(other.AllowedProtocols[q].Ports)
+//@          && dom(conn.AllowedProtocols[q].NamedPorts) == dom(other.AllowedProtocols[q].NamedPorts)
+//@          && dom(conn.AllowedProtocols[q].ExcludedNamedPorts) == dom(other.AllowedProtocols[q].ExcludedNamedPorts))
+//@   loop 2:
+//@     invariant wf: wfCS(conn) && sepCS(conn, other) && !conn.AllowAll && !old(conn.AllowAll) && conn.AllowedProtocols == old(conn.AllowedProtocols)
+//@     invariant sub: forall q v1.Protocol :: {seen(q)} seen(q) ==> old(q in conn.AllowedProtocols)
+//@     invariant shrink: forall q v1.Protocol :: {q in conn.AllowedProtocols} q in conn.AllowedProtocols ==>
+//@         (old(q in conn.AllowedProtocols) && conn.AllowedProtocols[q] == old(conn.AllowedProtocols[q]))
+//@     invariant todo: forall q v1.Protocol :: {q in conn.AllowedProtocols} {seen(q)} (old(q in conn.AllowedProtocols) && !seen(q)) ==>
+//@         (q in conn.AllowedProtocols && iset(conn.AllowedProtocols[q].Ports) == old(iset(conn.AllowedProtocols[q].Ports)))
+//@     invariant done: forall q v1.Protocol, n int :: {iset(conn.AllowedProtocols[q].Ports)[n]} {old(iset(conn.AllowedProtocols[q].Ports)[n])} seen(q) ==>
+//@         ptsP(conn, q, n) == (old(ptsP(conn, q, n)) && ptsP(other, q, n))
+//@     invariant nonempty: forall q v1.Protocol :: {q in conn.AllowedProtocols} (q in conn.AllowedProtocols && seen(q)) ==>
+//@         !(noNums(conn.AllowedProtocols[q]) && noNames(conn.AllowedProtocols[q]))
+
+//@ func (*ConnectionSet).Subtract
+//@   requires wfCS(conn) && wfCS(other) && sepCS(conn, other)
+//@   modifies conn.AllowAll, conn.AllowedProtocols, conn.AllowedProtocols[*]
+//@   modifies PortSet.Ports { r | ownsPS(conn, r) }
+//@   modifies map[string]bool { m | ownsMap(conn, m) }
+//@   ensures [C11,C05,C02] wf: wfCS(conn) && sepCS(conn, other)
+//@   ensures [C11,C02] pts: forall q v1.Protocol, n int :: {iset(conn.AllowedProtocols[q].Ports)[n]} {old(iset(conn.AllowedProtocols[q].Ports)[n])} {iset(other.AllowedProtocols[q].Ports)[n]}
+//@         pts(conn, q, n) == (old(pts(conn, q, n)) && !pts(other, q, n))
+//@   ensures [C11,C05] canon: (old(canonCS(conn)) && old(pureNum(conn)) && pureNum(other)) ==> (canonCS(conn) && pureNum(conn))
+//@   loop 1:
+//@     invariant wf: wfCS(conn) && sepCS(conn, other) && !conn.AllowAll
+//@     invariant pureN: (pre(pureNum(conn)) && pureNum(other)) ==> (forall q v1.Protocol :: {q in conn.AllowedProtocols} q in conn.AllowedProtocols ==> noNames(conn.AllowedProtocols[q]))
+//@     invariant pureE: (pre(pureNum(conn)) && pureNum(other)) ==> (forall q v1.Protocol :: {q in conn.AllowedProtocols} q in conn.AllowedProtocols ==> noExcl(conn.AllowedProtocols[q]))
+//@     invariant pureP: (pre(pureNum(conn)) && pureNum(other)) ==> (forall q v1.Protocol :: {q in conn.AllowedProtocols} q in conn.AllowedProtocols ==> !noNums(conn.AllowedProtocols[q]))
+//@     invariant sub: forall q v1.Protocol :: {seen(q)} seen(q) ==> pre(q in conn.AllowedProtocols)
+//@     invariant shrink: forall q v1.Protocol :: {q in conn.AllowedProtocols} q in conn.AllowedProtocols ==>
+//@         (pre(q in conn.AllowedProtocols) && conn.AllowedProtocols[q] == pre(conn.AllowedProtocols[q]))
+//@     invariant todo: forall q v1.Protocol :: {q in conn.AllowedProtocols} {seen(q)} (pre(q in conn.AllowedProtocols) && !seen(q)) ==>
+//@         (q in conn.AllowedProtocols && iset(conn.AllowedProtocols[q].Ports) == pre(iset(conn.AllowedProtocols[q].Ports)))
+//@     invariant done: forall q v1.Protocol, n int :: {iset(conn.AllowedProtocols[q].Ports)[n]} {pre(iset(conn.AllowedProtocols[q].Ports)[n])} seen(q) ==>
+//@         ptsP(conn, q, n) == (pre(ptsP(conn, q, n)) && !ptsP(other, q, n))
+//@     invariant notfull: forall q v1.Protocol :: {q in conn.AllowedProtocols} (seen(q) && q in other.AllowedProtocols
+//@         && !noNums(other.AllowedProtocols[q]) && q in conn.AllowedProtocols) ==> !fullRange(conn.AllowedProtocols[q])
